@@ -101,17 +101,26 @@ D(what) == [l |-> l, what |-> what]
 V(inv, class) == [l |-> l, inv |-> inv, class |-> class]
 
 \* common tail of every event with a logged pool: level-1 comparison, install, owed
-Install(e, expected, tbl, st, extraDrift, extraViol, stoppedNow) ==
+\* mid: the pool right after the event's own effect, before the reactor's reaction that the
+\* projection may already include (a pair completed by a Response can be refused and redone
+\* before the harness gets to read the pool)
+InstallM(e, expected, tbl, st, extraDrift, extraViol, stoppedNow, mid) ==
   LET lp == PoolOfLog(e.pool, tbl)
       alive == Range(e.pool.sw)
+      midRefused == PairRefused(mid, st) /\ ~hand.done
       \* (after the hand-over the pool is stopped: nothing is decided any more)
-      newOwed == IF PairRefused(lp, st) /\ ~hand.done THEN FailPeers(lp) \cap alive ELSE {}
+      newOwed == (IF PairRefused(lp, st) /\ ~hand.done /\ e.ev # "Handover" THEN FailPeers(lp) \cap alive ELSE {})
+                 \cup (IF midRefused THEN FailPeers(mid) \cap alive ELSE {})
   IN /\ gp' = lp
      /\ drift' = drift \cup extraDrift
                  \cup FailIf(lp \notin expected, D("pool after " \o e.ev \o " differs from the spec's"))
      /\ viol' = viol \cup extraViol
      /\ owed' = (owed \ stoppedNow) \cup newOwed
-     /\ failH' = (IF PairRefused(lp, st) THEN {lp.h, lp.h + 1} ELSE {}) \cup {h \in failH : h >= lp.h}
+     /\ failH' = (IF PairRefused(lp, st) THEN {lp.h, lp.h + 1} ELSE {})
+                 \cup (IF midRefused THEN {mid.h, mid.h + 1} ELSE {}) \cup {h \in failH : h >= lp.h}
+
+Install(e, expected, tbl, st, extraDrift, extraViol, stoppedNow) ==
+  InstallM(e, expected, tbl, st, extraDrift, extraViol, stoppedNow, EmptyPool)
 
 StepReset(e) ==
   /\ tT' = e.T
@@ -160,9 +169,9 @@ StepResponse(e) ==
       \* the real validateBlock on the block against the canonical state before it
       vbSpec == ValidateBlock([h |-> b.h - 1, lastID |-> IF b.h = 1 THEN NoBID ELSE CanonBID(b.h - 1)], VAt(b.h - 1), b)
   IN /\ blocks' = tbl
-     /\ Install(e, {Infer(r.pool, lp)}, tbl, gst,
-                FailIf(b # gen, D("block built by the harness is not the spec's block of that kind"))
-                \cup FailIf(e.vb # vbSpec, D("real ValidateBlock disagrees with the spec's")), {}, {})
+     /\ InstallM(e, {Infer(r.pool, lp)}, tbl, gst,
+                 FailIf(b # gen, D("block built by the harness is not the spec's block of that kind"))
+                 \cup FailIf(e.vb # vbSpec, D("real ValidateBlock disagrees with the spec's")), {}, {}, r.pool)
      /\ UNCHANGED <<tT, honest, gst, gstore, hand>>
 
 StepPlain(e) ==   \* NoBlock, Timeout
@@ -224,7 +233,10 @@ StepHandover(e) ==
                 FailIf(e.panic # PanicSpec(e), D("hand-over panic differs from the spec's prediction"))
                 \cup FailIf(~IsCaughtUp(lp), D("hand-over although the spec's IsCaughtUp is false"))
                 \cup FailIf(e.h # gst.h, D("hand-over state height differs from the applied height")),
-                FailIf(e.panic, V("CleanHandover", "handover:" \o Concat(e.seen.slots))), {})
+                FailIf(e.panic, V("CleanHandover", "handover:" \o Concat(e.seen.slots))),
+                \* a pair that is still lying in the pool when the node leaves the sync was never
+                \* examined (IsCaughtUp may hold two blocks below the tip): nobody owes anything for it
+                IF PairRefused(lp, gst) THEN FailPeers(lp) ELSE {})
      /\ UNCHANGED <<tT, honest, blocks, gst, gstore>>
 
 StepProbe(e) ==
